@@ -148,6 +148,9 @@ def run(res):
     ok, detail = C.prove(res, MODULES, THEOREMS)
     if not ok and not res.violations:
         C.tie_broken(res, "proof Gozod.Proofs.C18 over the regenerated tables", detail)
+    res.coverage.setdefault("trusted_base", list(C.TRUSTED_BASE))
+    res.coverage["trusted_base"] = res.coverage["trusted_base"] + [
+        "translator: harness/cmd/c18 (site catalogue, sentinel error maps) + vlib/c18.py (Gen/MsgWiring.lean, Gen/LocaleTable.lean writer)"]
     res.coverage["sites"] = len(SITES)
     res.coverage["gaps"] = {s: d["missing"] for s, d in SITES.items() if d["missing"] and d["wrapper"] == "top"}
     res.coverage["rule"] = ("54 issue leaves (invalid_type per raising schema, too_small/too_big per origin, invalid_format per format, not_multiple_of, "
